@@ -102,6 +102,19 @@ def run(ctx):
             done = len([l for l in outj.stdout.split('\n') if l.startswith(('j ', 'r '))])
             if len(ctx.violations) < 3 and done < len(j):
                 ctx.violation('crash:%s/%s' % (j[done], c), 'C20 fails on the implementation: crash (exit %d) in case "%s"' % (outj.returncode, j[done]), dict(harness='h_joint.cpp', config=c, input=j[done]))
+        if rexe:
+            rr = subprocess.run([rexe, 'exc'], input=outj.stdout, stdout=subprocess.PIPE, text=True).stdout
+            for ln in rr.split('\n'):
+                if ln.startswith('SUMMARY'):
+                    for kv in ln.split()[1:]:
+                        k, v = kv.split('=')
+                        if k in ('diverged', 'joint_event_lists'):
+                            tot[k] = tot.get(k, 0) + int(v)
+                elif ln.startswith('DIVERGE'):
+                    ctx.tie_broken.append('correspondence (joint, %s): %s' % (c, ln[:300]))
+                    if len(ctx.violations) < 3:
+                        case = ln.split('::')[1].split(' =')[0].strip()
+                        ctx.violation('%s/%s' % (case, c), 'C20 fails on the implementation: the events of the joint helper differ from the model: %s' % ln[8:300], dict(harness='h_joint.cpp', config=c, input=case))
         for ln in outj.stdout.split('\n'):
             if ln.startswith(('j ', 'r ')) and ' =' in ln:
                 nj += 1
@@ -110,8 +123,8 @@ def run(ctx):
                     ctx.violation('%s/%s' % (ln.split(' =')[0], c), 'C20 fails on the implementation: %s (%s)' % (why, ln.split(' =')[0]), dict(harness='h_joint.cpp', config=c, input=ln.split(' =')[0], output=ln))
     ctx.tie_broken = ctx.tie_broken[:6]
     ctx.cov.update(dict(
-        tie=dict(kind='event list (allocation, per-element construction/destruction by index, release, propagated exception) of allocate_unique<T>, allocate_unique<T[]> (plain and any_allocator), allocate_shared on an instrumented leaf and on a real pool/stack must equal ExcSafety.create_array; joint_ptr creation, the four joint_array constructor forms, clone_joint and move-with-allocator are checked by counters (constructed = destroyed, none twice, memory balanced, exception propagated, allocator usable)',
-                 configs=['base', 'dbg8'], helper_cases=tot.get('total', 0), throwing_cases=tot.get('throwing_cases', 0), joint_cases=nj, divergences=tot.get('diverged', 0),
+        tie=dict(kind='event list (allocation, per-element construction/destruction by index, release, propagated exception) of allocate_unique<T>, allocate_unique<T[]> (plain and any_allocator), allocate_shared on an instrumented leaf and on a real pool/stack must equal ExcSafety.create_array; joint_ptr creation with the size / value / range joint_array constructors, clone_joint and move-with-allocator: the event list (node obtained, element ids built, throw, element ids destroyed, node given back) must equal JointExc.jx_case; the initializer-list form and failures caught inside the object\'s constructor are checked by counters (constructed = destroyed, none twice, memory balanced, joint memory given back, exception propagated, allocator usable)',
+                 configs=['base', 'dbg8'], helper_cases=tot.get('total', 0), throwing_cases=tot.get('throwing_cases', 0), joint_cases=nj, joint_event_lists=tot.get('joint_event_lists', 0), divergences=tot.get('diverged', 0),
                  exhaustive_over='lengths 0..%d x every failing index' % (64 if thorough else 16)),
         evaluations=tot.get('total', 0) + nj, distinct_nontrivial=len(set(u)) + len(set(j)), exhaustive=True,
         rule='complete enumeration: array lengths 0..16 (thorough 0..64) x failing index -1 (none) and 0..n-1 for each helper and leaf; joint arrays: each constructor form x element count x failing index, and failures inside the copy/move constructions of clone and move; distinct = distinct case lines'))
